@@ -94,6 +94,7 @@ type pathState struct {
 	oneShotQueries  int
 	oneShotTime     time.Duration
 	knownSeen       map[string]bool
+	cuts            map[string]int
 	facts           map[*term.Term]bool
 	consts          term.Env
 	constsVer       int
